@@ -518,9 +518,18 @@ func c13Child(t *tr.Writer, e *callsEnv, c callsCase) {
 			}
 			t.Emit(tr.Rec{"ev": "req", "n": n, "limit": limit, "decl": decl + "-raw"})
 			conn.Write(frame)
-			conn.SetReadDeadline(time.Now().Add(80 * time.Millisecond))
-			buf := make([]byte, 70000)
-			k, _ := conn.Read(buf)
+			// collect whatever the service answers until it has been silent for a while
+			buf := make([]byte, 0, 70000)
+			tmp := make([]byte, 70000)
+			for {
+				conn.SetReadDeadline(time.Now().Add(250 * time.Millisecond))
+				m, err := conn.Read(tmp)
+				buf = append(buf, tmp[:m]...)
+				if err != nil || (c.Kind == "udp" && m > 0) {
+					break
+				}
+			}
+			k := len(buf)
 			conn.Close()
 			kind := "error"
 			if k > 12 && strings.Contains(strings.ToLower(string(buf[:k])), "too large") {
